@@ -129,8 +129,9 @@ func runC07(c *Ctx) {
 		return
 	}
 	c.Explain = "E3 type-graph walk of conf.Conf (fields of type Credential/*Credential named *Pass; OptionalPaths excluded: not serialised by the API) against the stores of api.redactCredentials; dominator-chain control conditions of each redaction store; access-path roots of all stores (clone only); E5 backward origin of the data argument of every gin response call whose static type can carry a conf.Credential (or an opaque conf carrier); E5 forward use analysis of header values in httpp.dumpRequest with per-phi-edge branch literals; table literal check; module-wide who-writes of the table and absence of httputil dumps."
+	cloneObligations(c, "C07.clone_independent.")
 	c.Assume = []string{
-		"conf.Conf.Clone is a deep copy (C11)",
+		"conf.Conf.Clone is a deep copy (C11; its obligations are re-evaluated here as C07.clone_independent.*)",
 		"conf.Conf.Global() omits pathDefaults/paths; OptionalPaths is not serialised by the Control API",
 		"net/http stores request header keys in canonical form",
 	}
